@@ -133,6 +133,11 @@ func (cw *c20World) reconcile(logStart int, opName string, agePrune bool, setKey
 		}
 	}
 	have := cw.contents()
+	// as it stands at the end of the step, before entries that left are forgotten below
+	open := map[string]bool{}
+	for k, v := range cw.lruOpen {
+		open[k] = v
+	}
 	before := map[string]int{}
 	for k, id := range cw.present {
 		before[k] = id
@@ -170,7 +175,7 @@ func (cw *c20World) reconcile(logStart int, opName string, agePrune bool, setKey
 		}
 		for _, e := range evicted {
 			for _, k := range kept {
-				if !cw.fail[k] && !cw.lruOpen[k] && !cw.lruOpen[e] && cw.lastUseBefore(k, before) < cw.lastUseBefore(e, before) {
+				if !cw.fail[k] && !open[k] && !open[e] && cw.lastUseBefore(k, before) < cw.lastUseBefore(e, before) {
 					vs = append(vs, h.V("lru-first", "eviction-not-lru", "%s: %s was evicted although %s was used less recently and its cleanup succeeds", opName, e, k))
 				}
 			}
@@ -179,7 +184,7 @@ func (cw *c20World) reconcile(logStart int, opName string, agePrune bool, setKey
 		var prev *cevent
 		for i := logStart; i < len(cw.log); i++ {
 			e := &cw.log[i]
-			if id, ok := before[e.key]; !ok || id != e.id || cw.lruOpen[e.key] {
+			if id, ok := before[e.key]; !ok || id != e.id || open[e.key] {
 				continue
 			}
 			if prev != nil && cw.lastUseBefore(e.key, before) < cw.lastUseBefore(prev.key, before) {
